@@ -256,9 +256,9 @@ def hybrid_rush_larsen(
         linearized = sympy.Symbol(linearized_name)
         eqs.append(printer(linearized, expr_diff, use_variable_prefix=True))
 
-        need_zero_div_check = not fraction_numerator_is_nonzero(expr_diff)
-        if not need_zero_div_check:
-            logger.debug(f"{linearized_name} cannot be zero. Skipping zero division check")
+        # Always guard: a linearization that cannot vanish (e.g. ``1/a`` or a
+        # small constant) can still be smaller in magnitude than ``delta``.
+        need_zero_div_check = True
 
         RL_term = x.symbol / linearized * (sympy.exp(linearized * dt) - 1)
         if need_zero_div_check:
@@ -348,9 +348,9 @@ def generalized_rush_larsen(
         linearized = sympy.Symbol(linearized_name)
         eqs.append(printer(linearized, expr_diff, use_variable_prefix=True))
 
-        need_zero_div_check = not fraction_numerator_is_nonzero(expr_diff)
-        if not need_zero_div_check:
-            logger.debug(f"{linearized_name} cannot be zero. Skipping zero division check")
+        # Always guard: a linearization that cannot vanish (e.g. ``1/a`` or a
+        # small constant) can still be smaller in magnitude than ``delta``.
+        need_zero_div_check = True
 
         RL_term = x.symbol / linearized * (sympy.exp(linearized * dt) - 1)
         if need_zero_div_check:
